@@ -24,8 +24,10 @@ def main():
     checks = [pid]
     if "--checks" in sys.argv:
         checks = sys.argv[sys.argv.index("--checks") + 1].split(",")
-    src = Path(f"/tmp/seed_{pid}_out/{var}")
     dst = VERIF / "seeded" / f"{pid}_{var}"
+    src = Path(f"/tmp/seed_{pid}_out/{var}")
+    if not src.exists():
+        src = dst                       # re-validation of a stored change against the current HEAD
     wt = Path(f"/tmp/sc_{pid}_{var}")
     if wt.exists():
         sh(f"git -C /repo worktree remove --force {wt}")
@@ -33,7 +35,11 @@ def main():
     assert rc == 0, out
     meta = {"property": pid, "variant": var, "checked_at_repo_commit": sh("git -C /repo rev-parse --short HEAD")[1].strip()}
     try:
-        rc, out = sh(f"git -C {wt} apply {src}/patch.diff")
+        patch = src / "patch_head.diff" if (src / "patch_head.diff").exists() else src / "patch.diff"
+        meta["patch_file"] = patch.name
+        rc, out = sh(f"git -C {wt} apply {patch}")
+        if rc != 0:
+            rc, out = sh(f"git -C {wt} apply -3 {patch}")
         meta["patch_applies"] = rc == 0
         if rc != 0:
             meta["apply_error"] = out[-500:]
@@ -65,9 +71,11 @@ def main():
             meta["our_checks"][c] = {"exit": rc_k, "lines": lines[:6], "what": what[:3], "wall_s": round(time.time() - t0, 1)}
         dst.mkdir(parents=True, exist_ok=True)
         for f in src.iterdir():
-            if f.is_file():
+            if f.is_file() and src != dst:
                 shutil.copy(f, dst / f.name)
         notes = (src / "notes.md").read_text() if (src / "notes.md").exists() else ""
+        if not notes and (dst / "meta.json").exists():
+            notes = json.loads((dst / "meta.json").read_text()).get("needs_to_manifest", "")
         meta["needs_to_manifest"] = notes[:1500]
         meta["ran"] = ["git apply patch.diff on a scratch worktree of /repo HEAD", f"demo with change / on HEAD", "core existing tests with change: " + " ".join(CORE_TESTS), "VERIF_REPO=<scratch> bin/check <id> --tier quick for: " + ",".join(checks)]
         (dst / "meta.json").write_text(json.dumps(meta, indent=1))
